@@ -116,6 +116,16 @@ def windows_path(n_max):
                     exp = ref.fcs16(octs[start:start + length], ite)
                     ctx.check(got == exp, f"compute_checksum window n={n} start={start} length={length}",
                               witness={"kind": "window", "data": data, "start": start, "length": length})
+            if n >= 1:
+                # the same buffer object, changed in place between two calls with the same window (no result may be remembered)
+                from symx.seq import SByteArray
+                buf = SByteArray(list(octs))
+                first = F.compute_checksum(buf, 0, n)
+                other = sym_octet("e0")
+                buf[0] = other
+                again = F.compute_checksum(buf, 0, n)
+                ctx.check(again == ref.fcs16([other] + octs[1:], ite), f"compute_checksum on a buffer changed in place, n={n}",
+                          witness={"kind": "mutated", "data": data, "changed": SBytes([other] + octs[1:]), "length": n})
             f = F()
             for o in octs:
                 f.update(o)
